@@ -1,7 +1,9 @@
 package main
 
 // Atomic facts implied by a branch condition, looking through the φ-nodes that go/ssa
-// produces for && / || chains assigned to a variable.
+// produces for && / || chains assigned to a variable, for results of (inlined) helpers
+// that are assigned on several paths and tested afterwards (`err = …; if err != nil`),
+// and for local cells stored just before the test.
 
 import (
 	"go/token"
@@ -23,43 +25,41 @@ func factsAt(b *ssa.BasicBlock) []Fact {
 	return out
 }
 
-func condFacts(c ssa.Value, pol bool, depth int) []Fact {
-	if depth > 6 {
-		return nil
+// resolveLocalLoad: v is a load of a local cell whose last store lies in the same block
+// with no call in between (a named result assigned right before it is tested).
+func resolveLocalLoad(v ssa.Value) ssa.Value {
+	u, ok := v.(*ssa.UnOp)
+	if !ok || u.Op != token.MUL {
+		return v
 	}
-	for {
-		if u, ok := c.(*ssa.UnOp); ok && u.Op == token.NOT {
-			c, pol = u.X, !pol
-			continue
-		}
-		break
-	}
-	out := []Fact{{c, pol}}
-	ph, ok := c.(*ssa.Phi)
+	al, ok := u.X.(*ssa.Alloc)
 	if !ok {
-		return out
+		return v
 	}
-	// a && b && c  ==> φ(false, false, c): true only via the single non-constant edge,
-	// whose predecessor is reached only when the earlier conjuncts held.
-	// a || b || c  ==> φ(true, true, c): false only via the single non-constant edge.
-	var nonConst []int
-	allOpp := true
-	for i, e := range ph.Edges {
-		k, isK := e.(*ssa.Const)
-		if !isK || k.Value == nil {
-			nonConst = append(nonConst, i)
-			continue
-		}
-		if (k.Value.String() == "true") == pol {
-			allOpp = false // a constant edge already gives the asked polarity: nothing implied
+	b := u.Block()
+	idx := -1
+	for i, in := range b.Instrs {
+		if in == ssa.Instruction(u) {
+			idx = i
 		}
 	}
-	if !allOpp || len(nonConst) != 1 {
-		return out
+	for i := idx - 1; i >= 0; i-- {
+		switch x := b.Instrs[i].(type) {
+		case *ssa.Store:
+			if x.Addr == ssa.Value(al) {
+				return x.Val
+			}
+		case ssa.CallInstruction:
+			return v
+		}
 	}
-	i := nonConst[0]
+	return v
+}
+
+// edgeFacts: what is known when control enters ph's block through predecessor i.
+func edgeFacts(ph *ssa.Phi, i int, depth int) []Fact {
+	var out []Fact
 	pred := ph.Block().Preds[i]
-	out = append(out, condFacts(ph.Edges[i], pol, depth+1)...)
 	for _, g := range guardsOf(pred) {
 		out = append(out, condFacts(g.Cond, g.Pol, depth+1)...)
 	}
@@ -73,5 +73,106 @@ func condFacts(c ssa.Value, pol bool, depth int) []Fact {
 			}
 		}
 	}
+	return out
+}
+
+func intersectFacts(sets [][]Fact) []Fact {
+	if len(sets) == 0 {
+		return nil
+	}
+	out := sets[0]
+	for _, s := range sets[1:] {
+		var keep []Fact
+		for _, f := range out {
+			for _, g := range s {
+				if f == g {
+					keep = append(keep, f)
+					break
+				}
+			}
+		}
+		out = keep
+	}
+	return out
+}
+
+// triState of "e is nil": 1 yes, 0 no, -1 unknown.
+func nilState(e ssa.Value) int {
+	if isNilConst(e) {
+		return 1
+	}
+	if isNonNilErrorValue(e) {
+		return 0
+	}
+	switch e.(type) {
+	case *ssa.Alloc, *ssa.MakeMap, *ssa.MakeSlice, *ssa.MakeChan, *ssa.MakeClosure, *ssa.Function, *ssa.FieldAddr, *ssa.IndexAddr:
+		return 0
+	}
+	return -1
+}
+
+func condFacts(c ssa.Value, pol bool, depth int) []Fact {
+	if depth > 6 {
+		return nil
+	}
+	for {
+		if u, ok := c.(*ssa.UnOp); ok && u.Op == token.NOT {
+			c, pol = u.X, !pol
+			continue
+		}
+		break
+	}
+	out := []Fact{{c, pol}}
+	// x == nil / x != nil where x is assigned on several paths
+	if b, ok := c.(*ssa.BinOp); ok && (b.Op == token.EQL || b.Op == token.NEQ) {
+		var x ssa.Value
+		switch {
+		case isNilConst(b.Y):
+			x = b.X
+		case isNilConst(b.X):
+			x = b.Y
+		}
+		if x != nil {
+			x = resolveLocalLoad(x)
+			if ct, isCT := x.(*ssa.ChangeType); isCT {
+				x = ct.X
+			}
+			if ph, isPhi := x.(*ssa.Phi); isPhi {
+				wantNil := (b.Op == token.EQL) == pol
+				var sets [][]Fact
+				for i, e := range ph.Edges {
+					st := nilState(e)
+					if st == -1 || (st == 1) == wantNil {
+						sets = append(sets, edgeFacts(ph, i, depth))
+					}
+				}
+				out = append(out, intersectFacts(sets)...)
+			}
+		}
+		return out
+	}
+	ph, ok := c.(*ssa.Phi)
+	if !ok {
+		return out
+	}
+	// a && b && c  ==> φ(false, false, c): true only via the single non-constant edge,
+	// whose predecessor is reached only when the earlier conjuncts held.
+	// a || b || c  ==> φ(true, true, c): false only via the single non-constant edge.
+	// A bool assigned on several paths (result of an inlined helper) is the general case:
+	// the asked polarity holds only via the edges that can yield it.
+	var sets [][]Fact
+	for i, e := range ph.Edges {
+		k, isK := e.(*ssa.Const)
+		if isK && k.Value != nil {
+			if (k.Value.String() == "true") == pol {
+				sets = append(sets, edgeFacts(ph, i, depth))
+			}
+			continue
+		}
+		fs := append([]Fact{}, condFacts(e, pol, depth+1)...)
+		fs = append(fs, edgeFacts(ph, i, depth)...)
+		sets = append(sets, fs)
+	}
+	out = append(out, intersectFacts(sets)...)
 	return out
 }
